@@ -464,7 +464,30 @@ func rulePrims(c *Ctx, p *core.Program) {
 	if puv != nil && guv != nil &&
 		core.ReachesCallee(puv, func(f *types.Func) bool { return core.IsFunc(f, "encoding/binary", "PutUvarint") }, 0) &&
 		core.ReachesCallee(guv, func(f *types.Func) bool { return core.IsFunc(f, "encoding/binary", "ReadUvarint") }, 0) {
-		c.R.Ok(rule, "prim/UVarInt", cfg, p.Pos(puv.Pos()), "binary.PutUvarint / binary.ReadUvarint (10-byte capable pair of the standard library)")
+		// and nothing else is ever appended by PutUVarInt (no hand-written fast path)
+		extra := false
+		for _, b := range puv.Blocks {
+			for _, in := range b.Instrs {
+				st, ok := in.(*ssa.Store)
+				if !ok || !isBufAddr(st.Addr) {
+					continue
+				}
+				ap, ok := st.Val.(*ssa.Call)
+				if !ok || len(ap.Call.Args) < 2 || !isUvarintSlice(ap.Call.Args[1]) {
+					extra = true
+				}
+			}
+		}
+		for _, call := range core.Calls(puv) {
+			if f := core.CalleeFunc(call); f != nil && core.IsMethod(f, core.PkgProto, "Buffer", f.Name()) {
+				extra = true
+			}
+		}
+		if extra {
+			c.R.Bad(rule, "prim/UVarInt", cfg, p.Pos(puv.Pos()), "PutUVarInt appends bytes that do not come from binary.PutUvarint (a hand-written fast path): its boundary must be shown to agree with ReadUvarint for every value")
+		} else {
+			c.R.Ok(rule, "prim/UVarInt", cfg, p.Pos(puv.Pos()), "binary.PutUvarint / binary.ReadUvarint (10-byte capable pair of the standard library), no other append")
+		}
 	} else {
 		c.R.Bad(rule, "prim/UVarInt", cfg, "", "the uvarint pair is not encoding/binary's PutUvarint / ReadUvarint: the hand-written side must be shown to accept every 64-bit value the other side emits")
 	}
